@@ -276,7 +276,9 @@ def run_shard(task):
                 res["labels"][lab] = res["labels"].get(lab, 0) + 1
             if out.nontrivial:
                 nontrivial.add(case_hash(out.key if out.key is not None else case))
-                if len(res["samples"]) < 3:
+                state["nt_seen"] = state.get("nt_seen", 0) + 1
+                # Hypothesis starts with minimal examples: samples are taken further into the run
+                if state["nt_seen"] in (1, 25, 120) and len(res["samples"]) < 3:
                     res["samples"].append(_sample_trim(case))
             elif len(res["samples"]) == 0 and res["evaluations"] > 20:
                 pass
@@ -467,8 +469,8 @@ def run_property(modname, tier, seed, replay=None, only_clause=None, jobs=None, 
         for k, v in r["labels"].items():
             pc["labels"][k] = pc["labels"].get(k, 0) + v
         pc["keys"].update(r["nontrivial_keys"])
-        if len(pc["samples"]) < 2:
-            pc["samples"].extend(r["samples"][:1])
+        if len(pc["samples"]) < 2 and r["samples"]:
+            pc["samples"].append(r["samples"][-1])
         for sig, f in r["failures"].items():
             cur = pc["failures"].get(sig)
             if cur is None or f["size"] < cur["size"]:
